@@ -156,7 +156,14 @@ ITEMS = [
        ],
        ensures=[('ids', 'ids_err(r.items()) == pr_error_ids(self)')]),
     Fn(PR, 'impl From<PartialResponse> for Response > fn from', name='from', wrap='impl From<PartialResponse> for Response', vis='',
-       rewrites=[ClosureRw(r'p', 'p: Policy', ret='PolicyID', ensures='r == p.spec_id()')],
+       proof_start='broadcast use axiom_hashmap_order_ok; proof { lemma_nonempty_empty(sf(p)); }',
+       proof_tail='''proof {
+            let m = if sf(p) =~= Set::<PolicyID>::empty() { p.satisfied_permits } else { p.satisfied_forbids };
+            assert forall|id: PolicyID| m@.dom().contains(id) implies __vx_r.diagnostics.reason@.contains(id) by {
+                assert(m.key_order().contains(id));
+                let j = choose|j: int| 0 <= j < m.key_order().len() && m.key_order()[j] == id;
+            }
+        }''',
        ensures=[
            ('decision', 'r.decision == pr_decision(p)', ['C01']),
            ('reasons', 'r.diagnostics.reason@ =~= pr_reasons(p)', ['C01']),
